@@ -69,6 +69,7 @@ package bcl
 //@ group C06,C17
 //@ func (*lexer).nextToken
 //@   trusted
+//@   noinv lexwin
 //@   ensures in_range: result1 ==> 0 <= result0.typ && result0.typ < tMAX
 //@   ensures err_set: result1 && result0.typ == tERR ==> result0.err != nil
 //@   ensures closed_after_fin: !result1 ==> old(g.lastfin)
@@ -77,6 +78,9 @@ package bcl
 //@   ghost lastfin = result1 ? result0.typ <= tEOF : g.lastfin; consumed = result1 ? g.consumed + 1 : g.consumed; lasterr = result1 ? result0.typ == tERR : g.lasterr
 //
 //@ func newLexer
+//@   noinv lexwin
+//@   requires [C11,C06] line_table_updater_given: linePosUpdater != nil
+//@   requires [C11] fresh_token_protocol: !g.lx_fin && !g.lx_err && g.ev_close_tokens == 0 && g.ev_bytes_inputs == 0
 //@   ensures result != nil
 //@   modifies nothing
 
@@ -382,7 +386,7 @@ package bcl
 //@   ensures monotone: g.consumed >= old(g.consumed)
 //
 //@ func parse
-//@   ghostinit sd = 0; pend = F0(); bd = 0; uninit = 0; njopen = 0; maxtarget = 0; consumed = 0; lastfin = false; lasterr = false; diags = 0
+//@   ghostinit sd = 0; pend = F0(); bd = 0; uninit = 0; njopen = 0; maxtarget = 0; consumed = 0; lastfin = false; lasterr = false; diags = 0; lx_fin = false; lx_err = false; ev_close_tokens = 0; ev_bytes_inputs = 0; ev_send_tokens = 0; bk = 2
 //@   ensures [C17] error_iff_diagnostic: ((result2 != nil) <==> g.diags > 0) && g.diags >= 0
 //@   ensures result0 != nil
 //@   ensures [C19,C03] complete_when_ok: result2 == nil ==> result0.linePos != nil
